@@ -431,8 +431,27 @@ class ZlibLog(object):
         parts = []
 
         class D(object):
+            # after the peer ended its DEFLATE stream (BFINAL) the rest of the input is handed on to a fresh inflater:
+            # that hand-over is not a message part and not the end of a logical Deflate.decompress(frames) call
+            @property
+            def unused_data(self):
+                u = real.unused_data
+                run.zcarry = bytes(u) if u else None
+                return u
+
+            @property
+            def eof(self):
+                return real.eof
+
+            @property
+            def unconsumed_tail(self):
+                return real.unconsumed_tail
+
             def decompress(self, data, *da):
                 data = bytes(data)
+                if getattr(run, "zcarry", None) is not None and data == run.zcarry:
+                    run.zcarry = None
+                    return real.decompress(data, *da)
                 tail = data == b"\x00\x00\xff\xff"
                 if not tail:
                     parts.append(data)
@@ -499,7 +518,7 @@ def to_sx(sc):
         app.append([i, acts])
     return [10, c, CN_CODES[sc.get("connect", "ok")], steps, app, list(sc.get("keys", [])),
             [WF_CODES[w] for w in sc.get("wfaults", [])],
-            [[] if z is None else [z] for z in sc.get("ztape", [])], list(sc.get("ctape", []))]
+            [[] if z is None else ([z[0], 1] if isinstance(z, (tuple, list)) else [z]) for z in sc.get("ztape", [])], list(sc.get("ctape", []))]
 
 
 # ---------------------------------------------------------------- canonicalisation of traces
